@@ -702,6 +702,16 @@ class ExprMixin(object):
                 for r in self.contains(st, v.d, item, fr):
                     yield r
                 return
+            if type(v).__name__ == 'ClassDep':
+                if not item.is_py:
+                    raise OutOfReach('symbolic item in class-dependent attribute')
+                res = {n: (item.py in val) for n, val in v.vals.items()}
+                if all(res.values()) or not any(res.values()):
+                    yield st, all(res.values())
+                    return
+                cls = self.H(st, 'cls')
+                yield st, z3.Or(*[cls[v.obj.term] == self.world.cid(n) for n, r in res.items() if r])
+                return
             if isinstance(v, GenV):
                 # x in (f(c) for c in seq)  ->  exists
                 yield self.gen_contains(st, v, item)
